@@ -200,16 +200,16 @@ def main():
     try:
         if ck.replay:
             body = json.load(open(os.path.join(VERIF, ck.replay) if not os.path.isabs(ck.replay) else ck.replay))
-            run_case(ck, body["case"], tmp)
+            ck.guard(run_case, ck, body["case"], tmp)
             ck.finish(rule="replay of one recorded case")
         ck.lean_obligations("CvProps.C18", THEOREMS)
         for case in json.load(open(os.path.join(VERIF, "harness", "corpus", "C18.json"))):
-            run_case(ck, case, tmp)
+            ck.guard(run_case, ck, case, tmp)
             ck.count("corpus")
         for _ in range(120 if not ck.thorough else 2500):
             if ck.enough():
                 break
-            run_case(ck, gen_case(ck), tmp)
+            ck.guard(run_case, ck, gen_case(ck), tmp)
     finally:
         shutil.rmtree(tmp, ignore_errors=True)
     ck.assumptions = ["HDF5 / h5py are modelled by a key-value store, not verified; names with embedded NUL are outside h5py's string domain"]
@@ -217,4 +217,6 @@ def main():
 
 
 if __name__ == "__main__":
-    main()
+    from cv.core import run_main
+
+    run_main(main)
